@@ -327,12 +327,15 @@ def huge(seed, count, tag='HUGE'):
         for _ in range(6):      # a few special rows anywhere, in particular near the end
             rows[rng.randrange(big * 9 // 10, big)] = rng.getrandbits(small)
         if k % 4 == 2:      # long aligned runs of empty rows, then a few described ones; very sparse
-            big = rng.choice([4096, 8192, 4096 * 3]) + rng.randint(3, 40)
+            empty = rng.choice([4096, 8192, 4096 * 3, 1024, 2048])     # an aligned run of empty rows ...
+            lead = rng.choice([0, 0, 4096]) if empty >= 4096 else rng.choice([0, 1024])
+            tail = rng.randint(3, 40)                                  # ... then a few described ones
+            big = lead + empty + tail
             rows = [0] * big
-            for i in range(big - rng.randint(3, 30), big):
+            for i in range(lead):
+                rows[i] = rng.getrandbits(small) if rng.random() < .01 else 0
+            for i in range(lead + empty, big):
                 rows[i] = rng.getrandbits(small) or 1
-            for _ in range(rng.randint(0, 3)):
-                rows[rng.randrange(big)] = rng.getrandbits(small)
         elif k % 4 == 3:
             big = rng.randint(5000, 13000)
             rows = [(rng.getrandbits(small) if rng.random() < .002 else 0) for _ in range(big)]
